@@ -20,6 +20,7 @@ RULE = (
     "function returns and cross-checked against RouteDecisionEvents. In the deterministic sub-class (closed gates, or "
     "gates reading graph inputs only and not gated themselves) executed set and values must equal RefEval. "
     "Non-trivial: at least one gate decision and one gated start observed; distinct = (program shape, decision vector)."
+    ' Directed part on every run: one instance of every loop template (gates with and without wait_for, exits, nested loops, gates on two signals) and a target shared by a default-open gate that has decided and a closed gate that has not (3 list orders x lags 1-3 x both selectors).'
 )
 ASSUMPTIONS = [
     "decisions are observed at the gate function boundary (return value) and, when a processor is attached, as RouteDecisionEvent",
